@@ -1,13 +1,40 @@
 #!/usr/bin/env python3
-"""Prints the markdown table of seeded changes (DESIGN.md section 8) from seeded/*/meta.json."""
-import glob, json, os
-rows = []
+"""Rewrites the tables of DESIGN.md section 9 (between the seeded-table markers) from seeded/*/meta.json:
+property-breaking seeded changes with the checks that catch them, and behaviour-preserving changes with
+the alarms they raised.  `--print` only prints."""
+import glob, json, os, re, sys
+rows, hrows = [], []
+def short(s, n):
+    s = " ".join((s or "").replace("|", "/").split())
+    return s if len(s) <= n else s[:n - 1] + "…"
 for d in sorted(glob.glob("/verif/seeded/*/")):
     m = json.load(open(os.path.join(d, "meta.json")))
     name = os.path.basename(d.rstrip("/"))
-    caught = [c for c, r in m.get("checks_run", {}).items() if r.get("violations")]
-    missed = [c for c, r in m.get("checks_run", {}).items() if not r.get("violations")]
-    rows.append("| %s | %s | %s | %s | %s |" % (name, m.get("summary", "").replace("|", "/")[:150], m.get("needs", "").replace("|", "/")[:130], ", ".join(caught) or "-", ", ".join(missed) or "-"))
-print("| seeded change | what it changes | needs, to manifest | caught by (quick tier) | run but silent |")
-print("|---|---|---|---|---|")
-print("\n".join(rows))
+    if name.startswith("harmless"):
+        al = m.get("alarms", {})
+        hist = m.get("alarm_history", [])
+        hrows.append("| %s | %s | %s | %s |" % (name, short(m.get("summary"), 140), ", ".join(sorted(al)) or "none",
+                                                short("; ".join(hist), 120) or "-"))
+        continue
+    cr = m.get("checks_run", {})
+    caught = [c for c, r in cr.items() if r.get("violations")]
+    silent = [c for c, r in cr.items() if not r.get("violations")]
+    first_missed = sorted(set(c for h in m.get("history", []) for c, r in h.items() if not r.get("violations") and c in caught))
+    own = m.get("property", name[:3])
+    note = ("first missed by " + ", ".join(first_missed)) if first_missed else ""
+    rows.append("| %s | %s | %s | %s | %s |" % (name, short(m.get("summary"), 150), ", ".join(caught) or "**none**", ", ".join(silent) or "-", note or "-"))
+out = ["| seeded change | what it changes | caught by (quick tier) | run but silent | note |", "|---|---|---|---|---|"] + rows
+out += ["", "Behaviour-preserving changes (an alarm here is a false alarm to be removed):", "",
+        "| change | what it changes | alarms (final run) | alarms of earlier runs, since removed |", "|---|---|---|---|"] + hrows
+text = "\n".join(out)
+if "--print" in sys.argv:
+    print(text); sys.exit(0)
+p = "/verif/DESIGN.md"
+s = open(p).read()
+a, b = "<!-- seeded-table-begin -->", "<!-- seeded-table-end -->"
+if a in s and b in s:
+    s = s[:s.index(a) + len(a)] + "\n" + text + "\n" + s[s.index(b):]
+    open(p, "w").write(s)
+    print("DESIGN.md table rewritten: %d seeded, %d harmless" % (len(rows), len(hrows)))
+else:
+    print("markers not found")
